@@ -29,7 +29,7 @@ META = {
 
 SHAPES = ["sparse_block", "sparse_block", "incomplete", "incomplete", "near_unanimous_incomplete", "near_unanimous",
           "complete", "identical", "cyclic", "cyclic", "cyclic_incomplete", "cyclic_incomplete", "cyclic_incomplete",
-          "cyclic_ties", "cyclic_ties", "cyclic_ties", "mixture", "mixture"]
+          "cyclic_ties", "cyclic_ties", "cyclic_ties", "mixture", "mixture", "fence", "fence", "clones"]
 ABSENT = ["exact_default", "exact_noopt", "exact_pulp", "enum_exact"]
 STANDIN = ["exact_default", "exact_noopt", "cplex_opt", "cplex_noopt", "cplex_paper", "enum_exact"]
 
@@ -67,7 +67,8 @@ def scheme_strategy():
     # B[5] != T[5] matters for sub-problem projection: free schemes produce it about 8 times out of 9
     return st.one_of(gen.free_schemes(), gen.free_schemes(), gen.tie_averse_schemes(), gen.tie_averse_schemes(),
                      gen.tie_averse_schemes(), gen.preset_multiples(), gen.near_presets(), gen.decimal_schemes(),
-                     gen.scaled_schemes(), gen.scaled_schemes())
+                     gen.scaled_schemes(), gen.scaled_schemes(),
+                     gen.preset_multiples(["induced", "induced_half", "pseudodistance"]))
 
 
 @st.composite
